@@ -394,6 +394,41 @@ def check_eval(sl_rdms, n_jobs_list=(1, 2, 4), method='corr', model_types=False)
         from harness.core import MachineryError
         raise MachineryError('explicit theta does not change the reference evaluation: setup vacuous')
     nev = 0
+    # the object passed in may be a SELECTION / RE-ORDERING of the searchlight output (it keeps the original
+    # positions in its 'index' descriptor): one result per element of the object passed, in its order
+    perm = [int(x) for x in np.random.default_rng(11).permutation(n)]
+    roi = sorted(centres[1::2])
+    derived = [('reversed/getitem-list', sl_rdms[list(range(n))[::-1]]), ('permuted/getitem-array', sl_rdms[np.array(perm)]),
+               ('roi/subset-voxel_index', sl_rdms.subset('voxel_index', roi)),
+               ('picked/getitem-list', sl_rdms[[perm[0], perm[1], perm[2]]])]
+    for dname, obj in derived:
+        m = obj.n_rdm
+        exp_centres = [int(x) for x in obj.rdm_descriptors['voxel_index']]
+        dref = [eval_fixed(weighted, obj[i], theta=theta, method=method).evaluations for i in range(m)]
+        for nj in n_jobs_list[:2]:
+            cls = 'parallel' if nj > 1 else 'sequential'
+            for name, fn in (('token', token_eval), ('eval_fixed', eval_fixed)):
+                try:
+                    with quiet():
+                        res = sl.evaluate_models_searchlight(obj, weighted, fn, method=method, theta=theta, n_jobs=nj)
+                except Exception as e:
+                    bad.append((f'd/eval/derived-object/raises/{type(e).__name__}',
+                                f'evaluate_models_searchlight raises {e!r} on a selection / re-ordering of the searchlight RDMs',
+                                {**case, 'n_jobs': nj, 'object': dname, 'n_rdm': m}))
+                    continue
+                nev += 1
+                res = list(res)
+                if len(res) != m:
+                    bad.append(('d/eval/derived-object/count', 'not one result per RDM of the object passed in',
+                                {**case, 'n_jobs': nj, 'object': dname, 'n_results': len(res), 'n_rdm': m}))
+                elif name == 'token' and [r[1] for r in res] != exp_centres:
+                    bad.append((f'd/eval/derived-object/order/{cls}', 'results are not in the order of the RDMs object passed in',
+                                {**case, 'n_jobs': nj, 'object': dname, 'expected': exp_centres[:12],
+                                 'got': [r[1] for r in res][:12]}))
+                elif name != 'token' and any(not np.array_equal(np.asarray(r.evaluations), np.asarray(d), equal_nan=True)
+                                             for r, d in zip(res, dref)):
+                    bad.append((f'd/eval/derived-object/value/{cls}', 'result i is not the evaluation of the i-th RDM of the '
+                                'object passed in', {**case, 'n_jobs': nj, 'object': dname}))
     for nj in n_jobs_list:
         for name, fn, mods, th in setups:
             cls = 'parallel' if nj > 1 else 'sequential'
